@@ -674,6 +674,8 @@ class Facts:
         self.pre = s
         if self.extra_kill:
             s = self.extra_kill(node, s)
+            if s is UNIVERSE:
+                return s
         if w:
             dw = None
             wp = self.wpaths(node)
